@@ -375,6 +375,10 @@ func (db *SingleBucketBackend) PutObject(
 	}
 	input = bytes.NewReader(bts)
 
+	if meta == nil {
+		// a caller of the Go API with no metadata to store; the merge below writes into the map
+		meta = map[string]string{}
+	}
 	err = gofakes3.MergeMetadata(db, bucketName, objectName, meta)
 	if err != nil {
 		return result, err
